@@ -324,7 +324,7 @@ func (c *Ctl) stuck(gs []G) []Blocked {
 			}
 			m = append(m, method(f))
 		}
-		out = append(out, Blocked{P: bgName(g.Raw), Entry: bgName(g.Raw), State: g.State, Frames: fr, At: g.State + "@" + strings.Join(m, "<")})
+		out = append(out, Blocked{P: c.bgNameL(g.Raw), Entry: c.bgNameL(g.Raw), State: g.State, Frames: fr, At: g.State + "@" + strings.Join(m, "<")})
 	}
 	sort.Slice(out, func(i, j int) bool { return out[i].Entry+out[i].At < out[j].Entry+out[j].At })
 	return out
@@ -360,6 +360,9 @@ var entryAlias = map[string]string{"blk": "notify", "disp": "notify", "blk_obs":
 func (b *Blocked) name() string {
 	if a, ok := entryAlias[b.Entry]; ok {
 		return a
+	}
+	if strings.HasPrefix(b.Entry, "acb") {
+		return "acb"
 	}
 	return b.Entry
 }
@@ -659,8 +662,8 @@ func (c *Ctl) statusAll(gs []G) map[string]string {
 		if _, drv := ids[g.ID]; drv || g.ID == c.self || !g.has(peerswapPkg) {
 			continue
 		}
-		n := bgName(g.Raw)
-		if n != "obs" && n != "elw" && n != "rec" {
+		n := c.bgNameL(g.Raw)
+		if n != "obs" && n != "elw" && n != "rec" && !strings.HasPrefix(n, "acb") {
 			continue
 		}
 		if cur, ok := out[n]; ok && cur != "idle" {
